@@ -159,6 +159,8 @@ func c14exec(hists [][]c14op, P time.Duration, prefix []int, jitter int64, verbo
 	switch {
 	case s.Diverged != "":
 		out.Harness = s.Diverged
+	case s.Fault != "":
+		out.Verdict = s.Fault
 	case s.Deadlock:
 		out.Verdict = "deadlock: a thread is blocked forever"
 	case s.Aborted:
